@@ -163,6 +163,44 @@ def runHist (v : Variant) : FS → List (Bytes × List Op) → Option FS
     | none => none
     | some s => runHist v s.fs rest
 
+/-! ### the object's own state carried from save to save: the formatting buffer `o.buf`
+
+    `offsetDB` is long-lived: `o.buf` survives a save. The code resets it (`o.buf = o.buf[:0]`) right
+    before it formats the snapshot, so what is handed to `write` is the rendering of THIS save's
+    snapshot whatever happened to earlier saves. `atEnd` is a seeded variant that resets after the
+    rename instead: the early returns after a failed write / sync skip the reset. (The generic
+    `offset.Offset` keeps nothing between saves: path and callback only.) -/
+
+inductive Reset | beforeFormat | atEnd
+deriving Repr, DecidableEq
+
+/-- the bytes a save hands to `write`, given what the buffer held and the rendering of its snapshot -/
+def saveData : Reset → Bytes → Bytes → Bytes
+  | .beforeFormat, _, snap => snap
+  | .atEnd, buf, snap => buf ++ snap
+
+/-- did the save return early after a failed write / sync (file plugin as fixed)? -/
+def returnedEarly (ops : List Op) : Bool :=
+  ops.any (fun op => match op with | .write _ false => true | .fsync false => true | _ => false)
+
+/-- the buffer the object is left with. A save whose open failed returns before it formats. -/
+def bufAfter (r : Reset) (buf snap : Bytes) (ops : List Op) : Bytes :=
+  match ops with
+  | .openTrunc false :: _ => buf
+  | .openKeep false :: _ => buf
+  | _ =>
+    match r with
+    | .beforeFormat => snap
+    | .atEnd => if returnedEarly ops then buf ++ snap else []
+
+/-- a history of saves on ONE long-lived object in one process: file system and buffer are carried -/
+def runObjHist (v : Variant) (r : Reset) : FS → Bytes → List (Bytes × List Op) → Option (FS × Bytes)
+  | fs, buf, [] => some (fs, buf)
+  | fs, buf, (snap, ops) :: rest =>
+    match run v (saveData r buf snap) ⟨beginSave v fs, .start⟩ ops with
+    | none => none
+    | some s => runObjHist v r s.fs (bufAfter r buf snap ops) rest
+
 /-- what a restarted process finds in the offsets file after a process kill -/
 def crashKill (fs : FS) : Option Bytes := fs.cur.vol
 /-- … after power loss -/
